@@ -233,6 +233,7 @@ func (e *fnEnc) loopInvariantTerm(li *loopInfo, v ssa.Value) func() string {
 }
 
 type fnEnc struct {
+	reachAt map[*ssa.BasicBlock]string // reachability of each block at its entry
 	transDone bool // the reflexive/transitive obligations of [transitive:] postconditions were emitted
 	V        *Verifier
 	fn       *ssa.Function
@@ -672,6 +673,10 @@ func (V *Verifier) encodeFunction(fn *ssa.Function, fc *FuncContract) (enc *fnEn
 			e.definePhis(b, nil)
 		}
 		inStates[b] = cur
+		if e.reachAt == nil {
+			e.reachAt = map[*ssa.BasicBlock]string{}
+		}
+		e.reachAt[b] = cur.reach
 		e.execBlock(b, cur)
 		e.out[b] = cur
 	}
